@@ -7,7 +7,7 @@
    MDP with absorbing states masked; optimal_value_unique shows there is at most one. *)
 From Coq Require Import QArith Qreals Reals List Bool.
 From MSDM Require Import base.Num base.NumInst model.MDP model.VI theory.Bellman theory.VITheory
-     theory.VITransfer theory.VIUndisc theory.VIMain theory.VIExample.
+     theory.VITransfer theory.VIUndisc theory.VIMain theory.VIExample theory.BellmanExistence.
 Local Open Scope R_scope.
 
 Theorem C01_values :
@@ -29,6 +29,18 @@ Theorem C01_vi_implementations_agree :
       <= (Q2R (epsb tl1) + Q2R (epsb tl2)) / (1 - Q2R g).
 Proof. exact main_vi_agree. Qed.
 Print Assumptions C01_vi_implementations_agree.
+
+(* the optimal value function the statements refer to EXISTS (Banach iteration) for every
+   well-formed discounted MDP, and so does the exact value of every stochastic policy *)
+Theorem C01_optimal_value_exists :
+  forall (m : mdp R), wf m -> gamma m < 1 -> exists Vs, fixpoint m Vs.
+Proof. exact optimal_value_exists. Qed.
+Print Assumptions C01_optimal_value_exists.
+
+Theorem C01_policy_value_exists :
+  forall (m : mdp R) pi, wf m -> gamma m < 1 -> wfpol m pi -> exists Vpi, fixpol m pi Vpi.
+Proof. exact policy_value_exists. Qed.
+Print Assumptions C01_policy_value_exists.
 
 Theorem C01_optimal_value_unique :
   forall (m : mdp R) V1 V2, wf m -> gamma m < 1 -> fixpoint m V1 -> fixpoint m V2 ->
